@@ -280,7 +280,7 @@ def replayBody (r : WalRec) (s : Store) : Store × Option String × Bool :=
         else
           let l' : Leaf := { l with cells := l.cells.map (fun c => if c.key == r.cell then { c with val := r.val } else c), lsn := r.lsn }
           ({ s1 with mem := assocSet s1.mem l.off ⟨.leaf l', true⟩ }, none, false)
-    else
+    else if r.op == c_OpDelete then
       match node with
       | .internal n =>
         if n.cells.any fun c => c.key == r.cell then (s1, some "panic:delete on internal node", false)
@@ -290,6 +290,7 @@ def replayBody (r : WalRec) (s : Store) : Store × Option String × Bool :=
         else
           let l' : Leaf := { l with cells := l.cells.map (fun c => if c.key == r.cell then { c with deleted := true } else c), lsn := r.lsn }
           ({ s1 with mem := assocSet s1.mem l.off ⟨.leaf l', true⟩ }, none, false)
+    else (s1, none, false)
   | _ => (s, some "fetch", false)
 
 theorem replayOne_eq_body (r : WalRec) (s : Store) : replayOne r s = replayBody r (raiseRec s r) := rfl
@@ -308,9 +309,12 @@ theorem replayBody_raiseKey (r : WalRec) (s : Store) (K : Nat) :
       · simp only [Bool.false_eq_true, if_false]
         cases h3 : r.op == c_OpUpdate
         · simp only [Bool.false_eq_true, if_false]
-          cases node with
-          | leaf l => simp only []; split <;> rfl
-          | internal n => simp only []; split <;> rfl
+          cases h4 : r.op == c_OpDelete
+          · simp only [Bool.false_eq_true, if_false]
+          · simp only [if_true]
+            cases node with
+            | leaf l => simp only []; split <;> rfl
+            | internal n => simp only []; split <;> rfl
         · simp only [if_true]
           cases node with
           | leaf l => simp only []; split <;> rfl
